@@ -158,6 +158,11 @@ class SyncCrazyflie:
         self._is_link_open = False
         if self._disconnect_event:
             self._disconnect_event.set()
+        if self._connect_event:
+            # The link was lost after the first packet but before the
+            # connection was set up: open_link() must not wait for ever
+            self._error_message = 'Connection lost during connection setup'
+            self._connect_event.set()
 
     def _all_params_updated(self, link_uri):
         self._params_updated_event.set()
